@@ -45,11 +45,26 @@ def build():
         harness_error("building the Rust reference model (twin) against /repo failed")
 
 
+PY = {"exe": sys.executable, "numpy": None}
+
+
+def pick_interpreter():
+    """prefer an installed interpreter that can import numpy (array operands of the operators need it)"""
+    for exe in (sys.executable, shutil.which("python3-vt"), shutil.which("python3")):
+        if not exe:
+            continue
+        r = subprocess.run([exe, "-c", "import numpy, sys; print(numpy.__version__, sys.version_info[:2] >= (3, 7))"], capture_output=True, text=True)
+        if r.returncode == 0 and r.stdout.split()[-1] == "True":
+            PY["exe"], PY["numpy"] = exe, r.stdout.split()[0]
+            return
+    PY["exe"], PY["numpy"] = sys.executable, None
+
+
 def run_py(script, args, hashseed, out):
     env = dict(os.environ, PYTHONPATH=MOD, PYTHONHASHSEED=hashseed, PYTHONDONTWRITEBYTECODE="1")
     if os.path.exists(out):
         os.remove(out)
-    r = subprocess.run([sys.executable, script] + args + ["--out", out], env=env, capture_output=True, text=True)
+    r = subprocess.run([PY["exe"], script] + args + ["--out", out], env=env, capture_output=True, text=True)
     if r.returncode != 0 or not os.path.exists(out):
         print(r.stdout[-2000:], r.stderr[-3000:], file=sys.stderr)
         harness_error(f"{os.path.basename(script)} failed (exit {r.returncode})")
@@ -67,7 +82,7 @@ def run_twin(jobs_path, ref_path):
 def conformance(tier, seed, tmp):
     """fault-free tier: generated client programs, Python module vs Rust twin, step by step"""
     jobs, ref = os.path.join(tmp, "jobs.json"), os.path.join(tmp, "ref.json")
-    run_py(CONF, ["emit", "--seed", str(seed), "--tier", tier], "0", jobs)
+    run_py(CONF, ["emit", "--seed", str(seed), "--tier", tier, "--numpy", "1" if PY["numpy"] else "0"], "0", jobs)
     run_twin(jobs, ref)
     c1 = run_py(CONF, ["run", "--jobs", jobs, "--ref", ref], "0", os.path.join(tmp, "conf1.json"))
     c2 = run_py(CONF, ["run", "--jobs", jobs, "--ref", ref], "random", os.path.join(tmp, "conf2.json"))
@@ -83,7 +98,10 @@ def minimise_conformance(mm, tmp):
         return job, 0
     sys.path.insert(0, HERE)
     import c17_conf
-    cand = c17_conf.slice_job(job, mm["mismatch"]["at"])
+    if "array_plan" in job:
+        cand = c17_conf.truncate_array_job(job, mm["mismatch"]["at"])
+    else:
+        cand = c17_conf.slice_job(job, mm["mismatch"]["at"])
     jp, rp = os.path.join(tmp, "min_jobs.json"), os.path.join(tmp, "min_ref.json")
     json.dump([cand], open(jp, "w"))
     run_twin(jp, rp)
@@ -97,7 +115,7 @@ def run_sim(args, hashseed, out):
     env = dict(os.environ, PYTHONPATH=MOD, PYTHONHASHSEED=hashseed, PYTHONDONTWRITEBYTECODE="1")
     if os.path.exists(out):
         os.remove(out)
-    r = subprocess.run([sys.executable, SIM, "--out", out] + args, env=env, capture_output=True, text=True)
+    r = subprocess.run([PY["exe"], SIM, "--out", out] + args, env=env, capture_output=True, text=True)
     if r.returncode != 0 or not os.path.exists(out):
         print(r.stdout[-2000:], r.stderr[-3000:], file=sys.stderr)
         harness_error(f"simulator process failed (exit {r.returncode})")
@@ -122,6 +140,7 @@ def main():
     a = ap.parse_args()
     t0 = time.time()
     build()
+    pick_interpreter()
     tmp = os.path.join(HERE, "target", "sim_out")
     os.makedirs(tmp, exist_ok=True)
     if a.replay and json.load(open(a.replay)).get("tier_of_violation") == "conformance":
@@ -154,29 +173,31 @@ def main():
         harness_error(f"two interpreters disagree on the event log of seed {a.seed}: {r1['digest']} vs {r2['digest']}")
     st = r1["stats"]
     exit_code, violations, known_hit = 0, 0, []
-    if conf["mismatch"]:
-        mm = conf["mismatch"]
-        job, dropped = minimise_conformance(mm, tmp)
-        what = mm["mismatch"]["what"]
-        opname = what.split("(")[-1].rstrip(")") if "(" in what else what
-        key = f"conformance:{job.get('class') or job.get('driver')}:{opname}"
-        kf = known_findings()
+    kf = known_findings()
+    reported = set()
+    for mm in conf.get("mismatches", []):
+        key = mm["finding_key"]
+        if key in reported:
+            continue
+        reported.add(key)
         if key in kf:
             print(f"KNOWN-FINDING: property=C17 {key}: {kf[key]}")
             known_hit.append(key)
-        else:
-            os.makedirs(os.path.join(VERIF, "replays"), exist_ok=True)
-            path = os.path.join(VERIF, "replays", f"C17-seed{a.seed}-conf{mm['job_index']}.json")
-            json.dump({"property": "C17", "tier_of_violation": "conformance", "seed": a.seed, "job_index": mm["job_index"], "job": job,
-                       "operations_dropped_by_minimisation": dropped, "mismatch": mm["mismatch"], "finding_key": key}, open(path, "w"), indent=1)
-            print(f"conformance mismatch in job {mm['job_index']} ({job.get('class') or job.get('driver')}) at {what}; {dropped} operations dropped by slicing")
-            print("  " + json.dumps(mm["mismatch"])[:600])
-            print(f"VIOLATION property=C17 replay={path}")
-            exit_code, violations = 1, 1
+            continue
+        if exit_code:
+            continue  # one VIOLATION line per run; further unknown mismatches are listed in the evidence
+        job, dropped = minimise_conformance(mm, tmp)
+        os.makedirs(os.path.join(VERIF, "replays"), exist_ok=True)
+        path = os.path.join(VERIF, "replays", f"C17-seed{a.seed}-conf{mm['job_index']}.json")
+        json.dump({"property": "C17", "tier_of_violation": "conformance", "seed": a.seed, "job_index": mm["job_index"], "job": job,
+                   "operations_dropped_by_minimisation": dropped, "mismatch": mm["mismatch"], "finding_key": key}, open(path, "w"), indent=1)
+        print(f"conformance mismatch in job {mm['job_index']} ({job.get('class') or job.get('driver')}) at {mm['mismatch']['what']}; {dropped} operations dropped by minimisation")
+        print("  " + json.dumps(mm["mismatch"])[:600])
+        print(f"VIOLATION property=C17 replay={path}")
+        exit_code, violations = 1, 1
     v = r1["violation"]
     if v and not exit_code:
         key = v["finding_key"]
-        kf = known_findings()
         if key in kf:
             print(f"KNOWN-FINDING: property=C17 {key}: {kf[key]}")
             known_hit.append(key)
@@ -195,8 +216,11 @@ def main():
         "coverage": {
             "conformance_tier": {
                 "what": "fault-free configuration: generated straight-line programs executed step by step on the Python classes and on the Rust reference model (twin) built from the same tree; every part of every register (getters, IEEE bit patterns), every repr() vs Rust Display, every driver result compared",
+                "mismatching_programs": len(conf.get("mismatches", [])), "distinct_finding_keys": sorted({m["finding_key"] for m in conf.get("mismatches", [])}),
                 "jobs": conf["stats"]["jobs"], "operations": conf["stats"]["operations"], "registers_compared": conf["stats"]["registers_compared"],
                 "programs_per_class": conf["stats"]["by_class"], "programs_per_driver": conf["stats"]["by_driver"],
+                "interpreter": PY["exe"], "numpy": PY["numpy"] or "not available: array-operand programs skipped",
+                "array_operand_programs": conf["stats"].get("array_operand_programs", 0), "array_operations": conf["stats"].get("array_operations", 0),
                 "distinct_operations_used": len(conf["stats"]["ops_used"]), "operations_used": conf["stats"]["ops_used"], "digest": conf["digest"], "sample": conf["sample"],
             },
             "evaluations": st["runs"],
